@@ -126,7 +126,7 @@ def gen_plan(run_seed, tier, index):
             a['MaxObjectCount'] = r.choice([0, None, -1])
         consume = r.choice([['exhaust']] * 5 + [['close', r.randint(0, 4)]] * 3
                            + [['drop', r.randint(0, 4)]] * 3 +
-                           [['alternate']])
+                           [['alternate'], ['overlap3']])
         c = {'op': name, 'a': a, 'consume': consume,
              'server_pull': r.choice([True, True, True, False, None])}
         if r.random() < 0.25:
@@ -362,6 +362,32 @@ def run_call(world, client, call, consume, inject):
                     except StopIteration:
                         done2 = True
             if sorted(map(okey, items)) != sorted(map(okey, items2)):
+                return ('alternate-differs', items, False, True)
+        elif mode == 'overlap3':
+            # three enumerations with lifetimes that are not nested: A is
+            # opened, B is opened, A ends, C is opened, B and C are consumed
+            def start():
+                g = start_iter(client, call)
+                g = g.generator if call['op'] == 'IterQueryInstances' else g
+                gens.append(g)
+                return g
+            ita = it
+            try:
+                next(ita)
+            except StopIteration:
+                pass
+            itb = start()
+            itemsb = []
+            try:
+                itemsb.append(next(itb))
+            except StopIteration:
+                pass
+            ita.close()
+            itc = start()
+            itemsc = list(itc)
+            itemsb.extend(itb)
+            items.extend(itemsb)
+            if sorted(map(okey, itemsb)) != sorted(map(okey, itemsc)):
                 return ('alternate-differs', items, False, True)
         return ('ok', items, early, started)
     except Exception as e:  # pylint: disable=broad-except
